@@ -17,6 +17,7 @@
 package sched
 
 import (
+	"runtime"
 	"fmt"
 	"hash/fnv"
 	"runtime/debug"
@@ -165,7 +166,9 @@ func trimStack(b []byte) string {
 // caller performs right after Wait returns is atomic with respect to the other threads.
 func (x *X) Wait(kind string, obj any, cond func() bool) {
 	if x.aborting {
-		panic(abortSentinel)
+		// runtime.Goexit, not a panic: code under test that recovers panics in a loop (a read loop, an
+		// event dispatcher) would swallow a sentinel panic and spin; Goexit still runs the deferred calls.
+		runtime.Goexit()
 	}
 	if x.inspect {
 		// an OnPoint invariant is reading through the real accessors while all threads are
@@ -179,7 +182,7 @@ func (x *X) Wait(kind string, obj any, cond func() bool) {
 	t.cond, t.kind, t.obj = cond, kind, obj
 	x.yieldCh <- struct{}{}
 	if !<-t.resume {
-		panic(abortSentinel)
+		runtime.Goexit()
 	}
 	t.cond = nil
 }
